@@ -349,8 +349,22 @@ def check_index_sites(ctx):
     ctx.require(sites >= 6, f"only {sites} constraint index sites found")
 
 
-def mutation_rule(ctx, rule, funcs, input_params):
-    """Ownership: names that alias (part of) the input must not be written through."""
+def _returns_fresh(fn) -> bool:
+    """every return of fn yields a container built in fn (display / comprehension, directly or through one local)"""
+    fresh_locals = set()
+    for n in walk_no_nested(fn):
+        if isinstance(n, (ast.Assign, ast.AnnAssign)) and n.value is not None and isinstance(n.value, (ast.Dict, ast.List, ast.Set, ast.DictComp, ast.ListComp, ast.SetComp)):
+            for t in (n.targets if isinstance(n, ast.Assign) else [n.target]):
+                if isinstance(t, ast.Name):
+                    fresh_locals.add(t.id)
+    rets = [n for n in walk_no_nested(fn) if isinstance(n, ast.Return)]
+    return bool(rets) and all(r.value is not None and (isinstance(r.value, (ast.Dict, ast.List, ast.Set, ast.DictComp, ast.ListComp, ast.SetComp)) or (isinstance(r.value, ast.Name) and r.value.id in fresh_locals)) for r in rets)
+
+
+def mutation_rule(ctx, rule, funcs, input_params, child_results_alias=False):
+    """Ownership: names that alias (part of) the input must not be written through.
+    child_results_alias: the value returned by a child `.serialize(<input>)` may be (part of) the input itself
+    (identity methods under no_copy / pass-through)."""
     for fi in funcs:
         fn = fi.node
         params = [p for p in fi.params if p in input_params]
@@ -369,6 +383,13 @@ def mutation_rule(ctx, rule, funcs, input_params):
                 return is_alias_expr(e.value) and not isinstance(e.slice, ast.Slice)
             if isinstance(e, ast.Attribute):
                 return is_alias_expr(e.value)
+            if child_results_alias and isinstance(e, ast.Call) and isinstance(e.func, ast.Attribute) and e.func.attr == "serialize" and e.args and is_alias_expr(e.args[0]):
+                if isinstance(e.func.value, ast.Call) and norm(e.func.value.func) == "super" and fi.cls is not None:
+                    # statically resolved: the parent's method may build a fresh container
+                    parent = ctx.model.find_method(fi.cls.qualname, "serialize", after=fi.cls.qualname)
+                    if parent is not None and _returns_fresh(parent.node):
+                        return False
+                return True
             if isinstance(e, ast.Call) and isinstance(e.func, ast.Attribute) and e.func.attr in ("get", "setdefault", "pop", "__getitem__", "values", "items"):
                 return is_alias_expr(e.func.value)
             if isinstance(e, ast.IfExp):
